@@ -388,6 +388,9 @@ impl Api {
     fn rs(&self) -> &'static dyn RemoteSuite {
         remote_by_name(self.s.name()).expect("remote suite")
     }
+    pub fn r_handle(&self, sk: &[u8]) -> R<Vec<u8>> {
+        self.simple("r_handle", vec![Arg::B(sk.to_vec())], || self.rs().r_handle(sk))
+    }
     pub fn r_keypair(&self, sk: &[u8], fail_at: Option<usize>) -> (R<Vec<u8>>, Vec<String>) {
         let (r, log) = self.mon2("r_keypair", || self.rs().r_keypair(sk, fail_at));
         if self.rec_on() {
@@ -523,6 +526,7 @@ pub fn reexec(c: &CallRec) -> (Result<Vec<String>, E>, Vec<String>) {
         "ke_sk_serde" => h1(api.ke_sk_serde(&a_blob(&a[0]))),
         "ke_pk_serde" => h1(api.ke_pk_serde(&a_blob(&a[0]))),
         "ke_random_sk" => h1(api.ke_random_sk(&mut t)),
+        "r_handle" => h1(api.r_handle(&a_b(&a[0]))),
         "r_keypair" => {
             let (r, l) = api.r_keypair(&a_b(&a[0]), a_u(&a[1]).map(|x| x as usize));
             log = l;
